@@ -250,6 +250,7 @@ fn render_fn(ctx: &mut Ctx, unit: &Unit, fs: &FnSpec, found: &FoundFn, in_trait_
     let mut pre: Vec<Stmt> = vec![];
     // R-ASYNC on the signature
     if sig.asyncness.is_some() { sig.asyncness = None; n.bump("R-ASYNC"); }
+    if sig.constness.is_some() { sig.constness = None; n.bump("R-ATTR"); }
     // receivers / mut params
     let mut inputs: Vec<String> = vec![];
     let mut extra_generics: Vec<String> = vec![];
@@ -281,8 +282,16 @@ fn render_fn(ctx: &mut Ctx, unit: &Unit, fs: &FnSpec, found: &FoundFn, in_trait_
                 if let Pat::Ident(pi) = &mut *pt.pat {
                     if pi.mutability.is_some() && pi.by_ref.is_none() {
                         pi.mutability = None;
-                        let id = &pi.ident;
-                        pre.push(parse_quote!(let mut #id = #id;));
+                        let id = pi.ident.clone();
+                        if fs.opts.contains("rename-mutparam") {
+                            // the mutable copy gets its own name (`x_mut`) so that contracts and invariants can relate it to the parameter
+                            let to = format!("{}_mut", id);
+                            Rename { from: &id.to_string(), to: &to }.visit_block_mut(&mut block);
+                            let nid = Ident::new(&to, Span::call_site());
+                            pre.push(parse_quote!(let mut #nid = #id;));
+                        } else {
+                            pre.push(parse_quote!(let mut #id = #id;));
+                        }
                         n.bump("R-MUTPARAM");
                     }
                     name = pi.ident.to_string();
